@@ -327,3 +327,32 @@ def r10_dis_interval_widening(ctx):
 
 
 RULES += [r10_dis_interval_widening]
+
+
+def r11_lookahead_promotion(ctx):
+    ctx.rule("C05.r11", "lookahead_widening_domain: both components of every widening result are built from a value of THIS (this->second, "
+             "or a join / widening whose left operand is a component of this) - a result built from `other` alone does not describe "
+             "the left argument, whose `first` need not be below other's `second`", floor=4)
+    LW = "include/crab/domains/lookahead_widening_domain.hpp"
+    fs = [f for f in ctx.db.fns(LW) if f["name"] in ("operator||", "widening_thresholds") and (f.get("cpk") or "").endswith("lookahead_widening_domain")]
+    if not ctx.need(fs, "lookahead_widening_domain widenings", "C05.r11"):
+        return
+    seen = set()
+    for fn in fs:
+        if (fn["name"],) in seen:
+            continue
+        seen.add((fn["name"],))
+        body = fn["body"]
+        for dd in local_decls(body).values():
+            if dd.get("n") not in ("first", "second") or "i" not in dd:
+                continue
+            own = [x for x in walk(dd["i"]) if x.get("k") == "mem" and x.get("n") == "m_product" and is_this(deref(x.get("b")))]
+            if own:
+                ctx.ok("%s: component `%s` built from a value of this" % (fn["name"], dd["n"]), fn, dd)
+            else:
+                ctx.bad("lookahead_widening_domain::%s builds the component `%s` of its result from `%s` alone: this->first need not be "
+                        "below it, so the result does not describe the left argument (((a=0) || (a=1)) || (a=5) gives a = 5)" %
+                        (fn["name"], dd["n"], src(dd["i"])[:40]), fn, dd, sig="lookahead-result-from-other-only:%s" % dd["n"])
+
+
+RULES += [r11_lookahead_promotion]
